@@ -122,8 +122,8 @@ func goArrayDefineOwnProperty(obj *object, name string, descriptor property, thr
 		return obj.runtime.typeErrorResult(throw)
 	} else if index := stringToArrayIndex(name); index >= 0 {
 		goObj := obj.value.(*goArrayObject)
-		if goObj.writable {
-			if obj.value.(*goArrayObject).setValue(obj.runtime, index, descriptor.value.(Value)) {
+		if value, isData := descriptor.value.(Value); isData && goObj.writable {
+			if obj.value.(*goArrayObject).setValue(obj.runtime, index, value) {
 				return true
 			}
 		}
